@@ -208,7 +208,7 @@ def run_dump(out, prop, tier, seed, only_slices=None):
             continue
         cfg = DUMP_CFG.format(nsea=NSEA[fmt], fmt=fmt, dom=dom, keep=keep)
         mc = cfg + 'INIT DInit\nNEXT DNext\nINVARIANT DTypeOK\n' + ''.join('INVARIANT %s\n' % f for f in FORMULAS) + 'INVARIANT Export\n'
-        res = tlc.run('MC_MibDump', 'g.cfg', files={'g.cfg': mc}, timeout=6000)
+        res = tlc.run('MC_MibDump', 'g.cfg', files={'g.cfg': mc}, timeout=6000, deadlock=True)
         out.add_tlc(res, 'MibDump/' + label)
         scen = res.exports
         if not scen:
@@ -264,6 +264,11 @@ def run_dump(out, prop, tier, seed, only_slices=None):
                 out.add_drift('mibdump %s differs from MibDump.tla for %s: observed exit=%s proc=%s written=%s; model exit=%s proc=%s written=%s' % (
                     v['drift'], brief_world(w, fmt), obs['exit'], {p['name']: p['st'] for p in obs['proc']}, obs['written'],
                     v['mexit'], {p['name']: p['st'] for p in v['mproc']}, v['mfiles']))
+    if not only_slices:
+        # the script always ends (report + exit, or the recorded crash): temporal property under the fair specification
+        lcfg = DUMP_CFG.format(nsea=2, fmt='json', dom='Dom_live', keep='KeepAll') + 'SPECIFICATION DSpec\nPROPERTY DTermination\n'
+        lres = tlc.run('MC_MibDump', 'live.cfg', files={'live.cfg': lcfg}, timeout=3000)
+        out.add_tlc(lres, 'MibDump/liveness(DTermination under WF)')
     out.assumptions += ['TLC + Json module trusted',
                         'the script is run in-process (runpy) with proxies around MibCompiler.compile/buildIndex; every 40th world also as a real subprocess and compared',
                         'file times are set with os.utime; __pycache__/*.pyc are projected away',
